@@ -41,7 +41,7 @@ ASSUMPTIONS = [
     'symbol tables are generated without STT_GNU_IFUNC / STB_GNU_UNIQUE and notes without annobin/stapsdt owners: the clone\'s '
     'description tables have no entries for them',
 ]
-KINDS = {'corpus': (288, 864, 0), 'compiled': (20, 44, 1), 'descr': (60, 60, 2), 'dwdescr': (40, 40, 1), 'generated': (120, 1500, 4)}
+KINDS = {'corpus': (288, 1011, 0), 'compiled': (20, 44, 1), 'descr': (60, 60, 2), 'dwdescr': (40, 40, 1), 'generated': (132, 1650, 4)}
 FLOOR = {'quick': 150, 'thorough': 600}
 CASE_TIMEOUT = 1200
 OPTIONS = ['-e', '-d', '-s', '-n', '-r', '-x.text', '-p.shstrtab', '-V', '--debug-dump=info', '--debug-dump=decodedline',
@@ -167,10 +167,13 @@ def run_pair(path, option, timeout=600):
     return ('ok' if ok else 'diff'), msg, n
 
 
-def corpus_pairs():
+EXTRA_OPTIONS = ['-S', '-l', '-h']      # the parts of -e on their own: they print headings of their own
+
+
+def corpus_pairs(extra=False):
     files = sorted(f for f in glob.glob(os.path.join(REPO, 'test', 'testfiles_for_readelf', '*.elf')))
     files = [f for f in files if os.path.getsize(f) > 0]
-    return [(f, o) for f in files for o in OPTIONS]
+    return [(f, o) for f in files for o in OPTIONS] + ([(f, o) for f in files for o in EXTRA_OPTIONS] if extra else [])
 
 
 def load_gaps():
@@ -1002,7 +1005,8 @@ def gen_families():
         return dynobj.gen_reloc_file(rng, tabs)
     return [('versions', ['-V', '-s', '-d', '-e'], dynobj.gen_versions), ('notes', ['-n'], dynobj.gen_notes_file),
             ('symtab', ['-s', '-e'], dynobj.gen_symtab_file), ('relocs', ['-r'], relocs),
-            ('layout', ['-e'], dynobj.gen_layout_file),
+            ('layout', ['-e', '-l', '-S', '-h'], dynobj.gen_layout_file),
+            ('sections', ['-S', '-e', '-s', '-r'], dynobj.gen_sections_file),
             ('dumps', ['-x.text', '-p.comment', '-x.comment', '-p.text', '-x.empty', '-x.bss', '-p.shstrtab'], dynobj.gen_dump_file),
             ('lines', ['--debug-dump=decodedline'], dwenv.gen_lines_file),
             ('frames', ['--debug-dump=frames', '--debug-dump=frames-interp'], dwenv.gen_frames_file),
@@ -1066,7 +1070,7 @@ def run_case(kind, idx, rng, sh):
         sh.skip('GNU readelf missing')
         return
     if kind == 'corpus':
-        pairs = corpus_pairs()
+        pairs = corpus_pairs(extra=sh.tier != 'quick')
         if not pairs:
             sh.skip('no corpus')
             return
